@@ -21,6 +21,8 @@ func TestEngine(t *testing.T) {
 		runRaceWorker(t)
 	case "det":
 		runDeterminism(t)
+	case "stubconf":
+		runStubConformance(t)
 	default:
 		t.Fatalf("unknown VERIF_MODE %q", os.Getenv("VERIF_MODE"))
 	}
